@@ -4,7 +4,7 @@
    [member_wf]: values a caller can pass (NACK numbers are u16; third-party writers use a 5-bit count
    and a word-aligned payload).  [m_write_into m buf]: (result, final buffer) of write_into.
    A model [Ok n] means that no panic-capable primitive failed anywhere in write_into_unchecked. *)
-From RtcpV Require Import Proofs.Members.
+From RtcpV Require Import Proofs.Members Proofs.C06b.
 
 (* for every configuration and every buffer *)
 Theorem C06_packets_and_compounds :
@@ -83,3 +83,32 @@ Check C06_sdes_item_builder :
     | Fuel => False
     end.
 Print Assumptions C06_sdes_item_builder.
+
+(* the five FCI builders implement the public writer trait themselves: the same statement for a bare FCI
+   builder ([fci_write_into] = write_into over its own calculate_size / write_into_unchecked) *)
+Theorem C06_fci_builder_as_a_writer :
+  forall (f : fci_cfg) (buf : bytes),
+    fci_wf f ->
+    match fci_calc f with
+    | Ok n =>
+        n mod 4 = 0 /\ length (rfc_fci f) = n /\
+        (n <= length buf -> fci_write_into f buf = (Ok n, rfc_fci f ++ skipn n buf)) /\
+        (length buf < n -> fci_write_into f buf = (Err (OutputTooSmall n), buf))
+    | Err e => fci_write_into f buf = (Err e, buf)
+    | Panic => False
+    | Fuel => False
+    end.
+Proof. exact fci_write_into_spec. Qed.
+Check C06_fci_builder_as_a_writer :
+  forall (f : fci_cfg) (buf : bytes),
+    fci_wf f ->
+    match fci_calc f with
+    | Ok n =>
+        n mod 4 = 0 /\ length (rfc_fci f) = n /\
+        (n <= length buf -> fci_write_into f buf = (Ok n, rfc_fci f ++ skipn n buf)) /\
+        (length buf < n -> fci_write_into f buf = (Err (OutputTooSmall n), buf))
+    | Err e => fci_write_into f buf = (Err e, buf)
+    | Panic => False
+    | Fuel => False
+    end.
+Print Assumptions C06_fci_builder_as_a_writer.
